@@ -91,7 +91,10 @@ DistinctMenu == {
   Agg(<<CountStar, ItE("max", V, "hi")>>, <<K>>, NoE, HAgg(CountStar, ">=", IntV(1)), TRUE, NoLimit, "none"),
   Agg(<<ItE("min", V, "lo")>>, <<K>>, NoE, NoH, TRUE, NoLimit, "none"),
   Agg(<<CountStar>>, <<K>>, NoE, HAgg(MaxOfV, ">", IntV(1)), TRUE, NoLimit, "none"),
-  Agg(<<CountStar, ItE("min", V, "lo")>>, <<K>>, NoE, [h |-> "keynull", e |-> K, neg |-> TRUE], TRUE, NoLimit, "none")
+  Agg(<<CountStar, ItE("min", V, "lo")>>, <<K>>, NoE, [h |-> "keynull", e |-> K, neg |-> TRUE], TRUE, NoLimit, "none"),
+  \* DISTINCT on a projection of only some of the group keys: groups that differ in the other key show equal rows
+  Agg(<<ItE("key", V, "v")>>, <<K, V>>, NoE, HAgg(CountStar, ">=", IntV(1)), TRUE, NoLimit, "none"),
+  Agg(<<KeyK>>, <<K, V>>, NoE, HAgg(CountStar, ">=", IntV(1)), TRUE, NoLimit, "none")
 }
 
 \* C07
@@ -329,7 +332,10 @@ JoinMenu == {
   Sel(<<P(W, "")>>, NoE, TRUE, NoLimit, "inner"),
   Agg(<<KeyK, CountStar, ItE("sum", W, "sw")>>, <<K>>, NoE, NoH, FALSE, NoLimit, "inner"),
   Agg(<<KeyK, CountStar>>, <<K>>, NoE, NoH, FALSE, NoLimit, "outer"),
-  Agg(<<ItE("key", W, "w"), ItE("min", V, "lo"), CountStar>>, <<W>>, NoE, NoH, FALSE, NoLimit, "inner")
+  Agg(<<ItE("key", W, "w"), ItE("min", V, "lo"), CountStar>>, <<W>>, NoE, NoH, FALSE, NoLimit, "inner"),
+  \* DISTINCT on an aggregate over a join: the duplicate lines of the joined file still count (DISTINCT only removes equal result rows)
+  Agg(<<KeyK, CountStar, ItE("sum", W, "sw")>>, <<K>>, NoE, NoH, TRUE, NoLimit, "inner"),
+  Agg(<<CountStar>>, <<K>>, NoE, NoH, TRUE, NoLimit, "inner")
 }
 
 \* C16: every consumer of the value order on every pair of same-kind values of the boundary universe
@@ -386,6 +392,12 @@ LinesRich == {KV(A, IntV(1600000000)), KV(A, IntV(1600000007)), KV(A, I31(5)), K
 \* noise lines longer than any buffer of the reader (8 KiB BufReader, 64 KiB) whose tail reads like a row: for the anchored table they are noise as a whole
 LinesNoiseLong == {KV(A, IntV(1)), KV(B, IntV(2)), LongPre(65536), LongPre(8192), LongPre(100000), Garbage}
 LinesNoise == {KV(A, IntV(1)), KV(B, IntV(2)), KV(A, Null), KV(Null, IntV(3)), KV(Null, Null), Garbage, Empty, Near}
+LinesNoiseDefault == {KV(A, IntV(1)), KV(Null, IntV(3)), KV(Null, Null), BigV, Garbage}        \* for the DEFAULT table: a value group that takes part but is no INT literal
+\* statements whose WHERE looks at `input` alone and has no value on a noise line ("###": 10 / (3 - 3)): noise never reaches the evaluator
+NoiseMenu == CoreLimitMenu \cup {
+  Sel(<<P(K, ""), P(V, "")>>, CmpE(">", Arith("/", Lit(IntV(10)), Arith("-", Call("length", <<Col("input")>>), Lit(IntV(3)))), Zero), FALSE, NoLimit, "none"),
+  Agg(<<CountStar>>, <<>>, CmpE(">", Arith("/", Lit(IntV(10)), Arith("-", Call("length", <<Col("input")>>), Lit(IntV(3)))), Zero), NoH, FALSE, NoLimit, "none"),
+  Sel(<<P(Col("input"), "")>>, CmpE("!=", Cast(Call("lower", <<Col("input")>>), "text"), Lit(TextV(<<>>))), TRUE, NoLimit, "none")}
 LongJoin == [i \in 1..34 |-> IF i % 2 = 0 THEN KV(A, IntV(i)) ELSE KV(B, IntV(i))]
 LongJoinNoise == [i \in 1..34 |-> IF i \in {11, 21, 31} THEN Garbage ELSE IF i % 2 = 0 THEN KV(A, IntV(i)) ELSE KV(B, IntV(i))]   \* non-rows exactly where the flag is sampled
 LongJoinEmpty == [i \in 1..34 |-> IF i \in {11, 21, 31} THEN Empty ELSE IF i \in {12, 22} THEN Near ELSE IF i % 2 = 0 THEN KV(A, IntV(i)) ELSE KV(B, IntV(i))]   \* empty lines exactly where the flag is sampled
@@ -395,7 +407,7 @@ LongJoinMixed == [i \in 1..120 |-> IF i % 13 = 0 THEN Garbage ELSE IF (i * i) % 
 JoinSetsMixed == {LongJoinMixed}
 Lines3 == {KV(A, IntV(1)), KV(B, IntV(2)), KV(Null, IntV(0)), KV(A, Null), Garbage}
 LinesJ == {KV(A, IntV(1)), KV(B, IntV(2)), KV(Null, IntV(1))}
-JoinSets == {<<>>, <<KV(A, IntV(5))>>, <<KV(A, IntV(0)), KV(A, IntV(5))>>, <<KV(B, IntV(5)), KV(A, IntV(5)), KV(A, IntV(6))>>, <<KV(A, IntV(5)), KV(A, IntV(0)), KV(Null, IntV(9))>>, <<KV(B, IntV(1)), Garbage, KV(A, IntV(3))>>}
+JoinSets == {<<KV(A, IntV(5)), KV(A, IntV(5)), KV(B, IntV(5))>>, <<>>, <<KV(A, IntV(5))>>, <<KV(A, IntV(0)), KV(A, IntV(5))>>, <<KV(B, IntV(5)), KV(A, IntV(5)), KV(A, IntV(6))>>, <<KV(A, IntV(5)), KV(A, IntV(0)), KV(Null, IntV(9))>>, <<KV(B, IntV(1)), Garbage, KV(A, IntV(3))>>}
 NoIntr == {[at |-> "none", n |-> 0]}
 LineIntr == {[at |-> "line", n |-> n] : n \in 0..4}
 PrintIntr == {[at |-> "print", n |-> n] : n \in 1..3}
